@@ -525,7 +525,28 @@ def gen_sweep_plan(run_seed: int, k: int) -> dict:
     else:
         name, g = "R0", pool.random_grammar(random.Random(common.derive_seed("C15-rg", k % 16, (k // 16) // 4, 0)))
     calls = [c for c in g["calls"] if len(c[1]) <= 48] or g["calls"][:2]
-    flavour = rng.choices(("cold", "warm", "history", "abort", "exhaust", "twin"), (5, 3, 2, 2, 1 if g.get("deep") else 0, 3))[0]
+    flavour = rng.choices(("cold", "warm", "history", "abort", "exhaust", "twin", "marathon"), (5, 3, 2, 2, 1 if g.get("deep") else 0, 3, 1))[0]
+    if flavour == "marathon":
+        # MARATHON: no threads; the long-running process.  Every fixed pool grammar, every small
+        # bundled one and a few seeded ones, each under a seeded optimizer setting, built AND
+        # generated one after the other in one process (40-odd parsers and modules, well over a
+        # thousand distinct generated constants), some calls right away and some calls on every
+        # object at the end.  Whatever is bounded process-wide -- a table cleared when it is
+        # full, a pool that recycles, a counter that wraps -- passes its bound here.
+        gs = {n: pool.FIXED[n] for n in fixed}
+        gs.update({n: pool.bundled()[n] for n in small})
+        for i in range(3):
+            gs[f"R{i}"] = pool.random_grammar(random.Random(common.derive_seed("C15-rg", k % 16, (k // 16) // 4, i)))
+        names = sorted(gs)
+        rng.shuffle(names)
+        names = names + rng.sample(names, min(len(names), 10))  # some grammars twice, under another setting
+        optimizers = {"o_none": {"passes": None}, "o_shared": {"passes": list(pool.PASS_NAMES), "shared_default": True}, "o1": {"passes": pool.random_optimizer_cfg(rng)}, "o2": {"passes": pool.random_optimizer_cfg(rng)}}
+        entries = []
+        for n in names:
+            cs = gs[n]["calls"]
+            entries.append({"g": n, "opt": rng.choices(("o_none", "o_shared", "o1", "o2"), (3, 4, 2, 2))[0], "calls": [list(c) for c in rng.sample(cs, min(len(cs), 4))]})
+        return {"property": "C15", "kind": "sweep", "run_seed": run_seed, "job": k, "grammars": {n: gs[n]["text"] for n in gs}, "optimizers": optimizers,
+                "g": names[0], "opt": "o_none", "mode": "both", "pairs": [], "marathon": entries, "flavour": flavour}
     if flavour == "twin":
         # TWIN sweep: no threads.  Two grammars that share rule names (and often whole rule
         # texts) -- the pool's twin pairs, a grammar and its variant under another BUILTIN table,
@@ -664,6 +685,17 @@ def sweep_phases(plan):
         return setup
 
     only = plan.get("only")  # [[pair index, step], ...]: replay of single rounds
+    if plan["flavour"] == "marathon":
+        ops = []
+        for i, en in enumerate(plan["marathon"]):
+            ops += [{"op": "new", "id": f"p{i}", "g": en["g"], "opt": en["opt"], "debug": False, "oid": f"ma.new{i}"}, {"op": "gen", "id": f"m{i}", "p": f"p{i}", "oid": f"ma.gen{i}"}]
+            for j, c in enumerate(en["calls"][:2]):
+                ops += [parse(f"p{i}", c, f"ma.e{i}.{j}.i"), parse(f"m{i}", c, f"ma.e{i}.{j}.g")]
+        for i, en in enumerate(plan["marathon"]):
+            for j, c in enumerate(en["calls"]):
+                ops += [parse(f"p{i}", c, f"ma.z{i}.{j}.i"), parse(f"m{i}", c, f"ma.z{i}.{j}.g")]
+        yield {"setup": ops, "clients": [], "schedule": {"first": None, "traced": False, "yields": []}, "faults": [], "history_first": 0}
+        return
     if plan["flavour"] == "twin" and plan.get("settings"):
         ops = []
         for i, oid in enumerate(plan["settings"]):
@@ -1687,6 +1719,8 @@ class Check:
         if plan.get("kind") == "hashseed":
             return len(plan["calls"])
         if plan.get("kind") == "sweep":
+            if plan["flavour"] == "marathon":
+                return 40 + 50 * len(plan["marathon"])
             if plan["flavour"] == "twin" and plan.get("settings"):
                 return 40 + 30 * len(plan["settings"]) + (20 * len(plan["only"]) if plan.get("only") is not None else 20 * len(plan["calls"]) * len(plan["settings"]))
             if plan["flavour"] == "twin":
@@ -1710,6 +1744,17 @@ class Check:
         if plan.get("kind") == "sweep":
             # the one round in which the violation was seen (w<pair>_<step>.c?.0), then simpler arguments
             oid = str((plan.get("violation") or {}).get("detail", {}).get("oid") or "")
+            if plan["flavour"] == "marathon":
+                es = plan["marathon"]
+                n = len(es)
+                chunk = n // 2
+                while chunk >= 1:
+                    for s0 in range(0, n, chunk):
+                        cand = es[:s0] + es[s0 + chunk :]
+                        if cand:
+                            yield {**plan, "marathon": cand}
+                    chunk //= 2
+                return
             ms = re.match(r"tw\.s(\d+)\.b(\d+)\.", oid)
             if plan.get("only") is None and ms:
                 yield {**plan, "only": [[int(ms.group(1)), int(ms.group(2))]]}
@@ -1844,6 +1889,12 @@ class Check:
         if plan.get("kind") == "sweep":
             spec = plan["optimizers"][plan["opt"]]
             o = "optimizer=None" if spec["passes"] is None else ("DEFAULT_OPTIMIZER" if spec.get("shared_default") else f"Optimizer({spec['passes']})")
+            if plan["flavour"] == "marathon":
+                def oname2(oid):
+                    sp = plan["optimizers"][oid]
+                    return "None" if sp["passes"] is None else ("DEFAULT_OPTIMIZER" if sp.get("shared_default") else f"Optimizer({sp['passes']})")
+                es = plan["marathon"]
+                return f"marathon: {len(es)} parsers built and generated one after the other in one process, calls on every parser and module at the end: " + "; ".join(f"{en['g']} ({oname2(en['opt'])})" for en in es[:8]) + (" ..." if len(es) > 8 else "")
             if plan["flavour"] == "twin" and plan.get("settings"):
                 def oname(oid):
                     sp = plan["optimizers"][oid]
